@@ -11,6 +11,7 @@
 //        hash / list of (result | raised<<16), raised = 1 FE_OVERFLOW, 2 FE_UNDERFLOW, 4 any other
 //        exception flag, read with fetestexcept after every call (IMATH_HALF_ENABLE_FP_EXCEPTIONS build)
 //   h2f_all <api> <canon>
+//   roundtrip_all <api> <canon>          half -> float -> half on the real code, all 2^16 patterns
 //   config | rm_control | round_all <n> | class_all | f2h <hex>.. | h2f <hex>..
 //
 // Environment HALF_CORR_ROUND = ne | tz | up | dn : fesetround() in main and in every worker
@@ -241,6 +242,18 @@ int main (int argc, char** argv)
             uint32_t r = conv_h2f ((uint16_t) h, cxx);
             if (canon) r = canon32 (r);
             printf ("%x\n", r);
+        }
+        chk_round ();
+        return g_round_bad ? 4 : 0;
+    }
+    if (!strcmp (argv[1], "roundtrip_all"))
+    {
+        // the composition on the REAL code: half -> float -> half through one api, every pattern
+        int cxx = argc > 2 ? parse_api (argv[2]) : 0, canon = argc > 3 ? atoi (argv[3]) : 0;
+        for (uint32_t h = 0; h < 65536; ++h)
+        {
+            uint16_t r = conv_f2h (conv_h2f ((uint16_t) h, cxx == 2 ? 1 : cxx), cxx);
+            printf ("%x\n", canon ? canon16 (r) : r);
         }
         chk_round ();
         return g_round_bad ? 4 : 0;
